@@ -233,6 +233,10 @@ def pending_gates(runs, loop, multi=False):
     out = []
     for r in runs:
         links = getattr(r.rt, 'exec_links', {})
+        # completed gates are of no further interest: drop them (a node that retries for ever would otherwise make every call linear
+        # in the number of attempts so far)
+        for g in [g for g, f in r.rt.gates.items() if f.done()]:
+            del r.rt.gates[g]
         for g, f in r.rt.gates.items():
             if f.done():
                 continue
@@ -366,7 +370,7 @@ class Exact:
         return None
 
 
-def run_schedule(spec, sched, n_runs=1, overlap=False, inputs=None, tag='', step_limit=100000, built=None,
+def run_schedule(spec, sched, n_runs=1, overlap=False, inputs=None, tag='', step_limit=4000, built=None,
                  record_orders=True, drain=True):
     """Run the real engine under a schedule. sched: a policy object (Replay / RandomBatch / RandomStep) or a plain
     action list (wrapped in Replay). Actions: ['q'] run to quiescence, ['s'] one loop iteration, ['g', gid] complete
@@ -382,14 +386,23 @@ def run_schedule(spec, sched, n_runs=1, overlap=False, inputs=None, tag='', step
     orders = []
     descs = {}
 
+    def foreign(ks):
+        # a call made by a task of an EARLIER run that was abandoned in a livelock and is only now being finalised: its node ids are
+        # not nodes of this chart
+        return any(isinstance(k, list) and k and k[0] == '?' for k in ks)
+
     def rec(kind, a, b):
         if kind == 'topo':
             dag = a
+            if foreign([key(n) for n in dag.nodes]):
+                return
             orders.append(dict(source=key(dag.source) if getattr(dag, 'source', None) is not None else None,
                                dest=key(dag.dest) if getattr(dag, 'dest', None) is not None else None,
                                rec=bool(dag.is_recurrent), oneof=bool(dag.is_oneof), nested=bool(dag.is_nested_oneof),
                                nodes=[key(n) for n in dag.nodes], order=[key(n) for n in b]))
         else:
+            if foreign([key(a)] + [key(n) for n in b]):
+                return
             descs[json.dumps(key(a))] = [key(n) for n in b]
 
     real_nx = mgr_mod.nx
@@ -448,6 +461,8 @@ def run_schedule(spec, sched, n_runs=1, overlap=False, inputs=None, tag='', step
                 total += 1
                 if total > step_limit:
                     verdict = 'steplimit'
+                    if os.environ.get('VERIF_DEBUG_LONG'):
+                        json.dump(dict(spec=spec, actions=obs['actions'][:200]), open(os.environ['VERIF_DEBUG_LONG'], 'w'))
                     break
                 pend = pending_gates(runs, loop, multi)
                 act = policy.next(bool(loop.ready), [g for g, _ in pend])
